@@ -42,8 +42,10 @@ Scenario(kind, g, b, r) ==
   [fam |-> "conc", kind |-> kind, g |-> g, backend |-> b, rounds |-> IF kind = "invoke" THEN 6 ELSE 2, envid |-> "E1", rot |-> r,
    progs |-> [i \in 1..g |-> ConcProgs[((r * 3 + (i - 1) * (IF kind = "invoke" THEN 0 ELSE 5)) % NP) + 1]],
    ovs |-> [i \in 1..g |-> ConcOv(i)]]
+\* one compiled expression invoked by all: every program of the pool (rot = 6 r, so that r * 3 runs through all of them)
 Cases == Concat([k \in 1..Len(Kinds) |-> Concat([gi \in 1..Len(Gs) |-> Concat([b \in 1..Len(Backends) |->
-            [r \in 1..Rot |-> Scenario(Kinds[k], Gs[gi], Backends[b], r - 1)]])])])
+            [r \in 1..(IF Kinds[k] = "invoke" THEN NP ELSE Rot) |->
+               Scenario(Kinds[k], Gs[gi], Backends[b], IF Kinds[k] = "invoke" THEN 6 * (r - 1) ELSE r - 1)]])])])
 
 Init == IF P_MODE = "cases" THEN st = [seed |-> 0] /\ CInit([p \in 1..1 |-> <<>>], TRUE, 1)
         ELSE st = [model |-> P_MODE] /\ CInit(Progs, Warm, NE)
